@@ -99,3 +99,7 @@ Proof. intros H. unfold query_get. rewrite (parse_encode l H). reflexivity. Qed.
 Lemma parse_query_app a b : free_of 38 a = true ->
   parse_query (a ++ 38 :: b) = (match parse_piece a with Some kv => [kv] | None => [] end) ++ parse_query b.
 Proof. intros H. unfold parse_query. rewrite (split_app 38 a b H). reflexivity. Qed.
+
+Theorem query_values_encoded l name : Forall bytes_pair l ->
+  query_values (encode_pairs l) name = map snd (filter (fun kv => str_eqb (fst kv) name) l).
+Proof. intros H. unfold query_values. rewrite (parse_encode l H). reflexivity. Qed.
